@@ -105,6 +105,10 @@ def scenario_for(seed, index, tier):
                          '["Server ",{"text":"closed","color":"red"}]',
                          '{"text":"","extra":[{"text":"x"}]}'])
     play.append(['disconnect', reason])
+    # a kick may also end in an abortive close (the server still had unread
+    # client data, or SO_LINGER 0): the client's first send then fails with
+    # ECONNRESET instead of EPIPE, while everything received stays readable
+    kick_rst = kick and rng.random() < 0.4
     if kick:
         play.append(['close'])
     v = rng.random()
@@ -121,7 +125,10 @@ def scenario_for(seed, index, tier):
         'slow_listener': slow, 'flood': flood,
         'proto': proto, 'compress': compress, 'history': hist,
         'user_packets': user_packets, 'kick': kick, 'reason': reason,
-        'server': {'conns': [{'login': login, 'play': play}]},
+        'server': {'conns': [dict({'login': login, 'play': play},
+                                  **({'close_mode': 'rst'} if kick_rst
+                                     else {}))]},
+        'kick_rst': kick_rst,
         'net': net,
         'sched': {'granularity': 'io' if rng.random() < 0.7 else 'line',
                   'max_steps': 3000000},
@@ -216,7 +223,8 @@ def check(scenario, w, st, res, ids):
     app = w.server.apps[0]
     ob()
     if st['errs']:
-        if scenario.get('kick') and sim.stats.get('fault.send-error') and \
+        if scenario.get('kick') and (sim.stats.get('fault.send-error') or
+                                     sim.stats.get('fault.rst')) and \
                 all(isinstance(e, OSError) for e in st['errs']) and \
                 app.out_frames and \
                 app.conn.s2c_consumed < app.out_frames[-1][1]:
@@ -233,7 +241,8 @@ def check(scenario, w, st, res, ids):
         return
     ob()
     errors = list(app.errors)
-    if scenario.get('kick') and sim.stats.get('fault.send-error'):
+    if scenario.get('kick') and (sim.stats.get('fault.send-error') or
+                                 sim.stats.get('fault.rst')):
         # a frame whose second send() failed on the dead connection is cut
         # short by the fault itself, not by the client; whatever the client
         # still writes afterwards (e.g. the flush of its disconnect) can no
